@@ -553,6 +553,16 @@ class SkyCoordTableCoordinate(BaseTableCoordinate):
                                   mesh=False,
                                   names=self.names,
                                   physical_types=self.physical_types)
+            n_ints = sum(isinstance(s, Integral) for s in new_coord._slice)
+            if n_ints and len(new_coord._slice) - n_ints == 1:
+                # Only one component still varies: the fixed components are constant along the
+                # one remaining axis, so the result is an ordinary (unmeshed) 1-D table.
+                components = np.broadcast_arrays(*new_coord._sliced_components, subok=True)
+                new_sc = SkyCoord(self.table.realize_frame(type(self.table.data)(*components)))
+                return type(self)(new_sc,
+                                  mesh=False,
+                                  names=self.names,
+                                  physical_types=self.physical_types)
             return new_coord
 
     @property
